@@ -69,6 +69,7 @@ fn main() {
             "C15" => netrun::worker(prop, t, shard, n, checks::c15::cases, checks::c15::run_case),
             "C16" => netrun::worker(prop, t, shard, n, checks::c16::cases, checks::c16::run_case),
             "C06" => netrun::worker(prop, t, shard, n, checks::c06::cases, checks::c06::run_case),
+            "C05" => netrun::worker(prop, t, shard, n, checks::c05::cases, checks::c05::run_case),
             "C08" => netrun::worker(prop, t, shard, n, checks::c08::cases, checks::c08::run_case),
             "C04" => netrun::worker(prop, t, shard, n, checks::c04::cases, checks::c04::run_case),
             _ => std::process::exit(2),
